@@ -341,16 +341,21 @@ class TreeExec:
         if data not in ond.pgs[pg]:
             ond.pgs[pg].append(data)
 
-    def op_pg_add_foreign(self, obj, data, pg):
-        """Ask for a data set of ANOTHER object (by identifier) to be put in a property group:
-        must be refused or ignored - a group lists only children of its own object."""
+    def op_pg_add_foreign(self, obj, own, foreign, pg):
+        """Put [own data, data of ANOTHER object] (by identifier) in a property group in one
+        call: the own one is added, the foreign one must be ignored (or the call refused) - a
+        group lists only children of its own object."""
+        ond = self.model.nodes[obj]
         o = self.ent(obj)
-        d = self.ent(data)
+        d_own = self.ent(own)
+        d_for = self.ent(foreign)
         try:
-            o.add_data_to_group(d.uid, pg)
+            o.add_data_to_group([d_own.uid, d_for.uid], pg)
         except Exception as err:  # pylint: disable=broad-except
             raise Refused("expected:foreign-data:" + type(err).__name__) from err
-        return "ok:ignored-or-accepted"
+        ond.pgs.setdefault(pg, [])
+        if own not in ond.pgs[pg]:
+            ond.pgs[pg].append(own)
 
     def op_retype(self, d, d2):
         """Share another data's type (as the DC/IP surveys do)."""
@@ -750,9 +755,10 @@ def enabled(model: Model, alpha: dict) -> list:
                         ops.append(["pg_add", o.idx, d, pg])
     if alpha.get("pg_foreign"):
         for o in objects:
+            own = [c for c in o.children if DATA_KINDS[model.nodes[c].dkind] == "VERTEX"]
             for d in data:
-                if d.parent != o.idx and DATA_KINDS[d.dkind] == "VERTEX":
-                    ops.append(["pg_add_foreign", o.idx, d.idx, "P"])
+                if own and d.parent != o.idx and DATA_KINDS[d.dkind] == "VERTEX":
+                    ops.append(["pg_add_foreign", o.idx, own[0], d.idx, "P"])
     if alpha.get("retype"):
         for d in data:
             for d2 in data:
